@@ -5,7 +5,7 @@ from props.common import ALL_CONTRACTS
 CONTRACT_MODULES = ALL_CONTRACTS
 P = "__init__.ExcludeRegionPlugin."
 FUNCTIONS = [P + "on_event", P + "handleGcodeQueuing", P + "handleAtCommandQueuing", P + "handleScriptHook",
-             "ExcludeRegionState.ExcludeRegionState.resetState", "__init__.ExcludeRegionPlugin._handleSettingsUpdated"]
+             "ExcludeRegionState.ExcludeRegionState.resetState", "__init__.ExcludeRegionPlugin._handleSettingsUpdated", P + "initialize"]
 ASSUMPTIONS = ["A1", "A3", "A4", "INDUCTION"]
 EXTRA_ASSUMPTIONS = ["Events.SETTINGS_UPDATED is outside the on_event contract: _handleSettingsUpdated (settings plumbing) is unverified surroundings",
                      "GcodeHandlers.handleGcode/handleAtCommand are seen by the hooks through a delegation summary (call logged, state havocked)"]
@@ -14,6 +14,9 @@ EXPLANATION = ("Hooks: with no active job the three hooks return None with an em
                "reference automaton spec/lifecycle.py for every event name (known names enumerated, one symbolic "
                "name distinct from all of them). _handleSettingsUpdated sets clearRegionsAfterPrintFinishes (and every other flag) from its own settings key.")
 BREAKERS = [
+    {"module": "__init__", "old": "        self._activePrintJob = False\n        self.state = ExcludeRegionState(self._logger)",
+     "new": "        self._activePrintJob = True\n        self.state = ExcludeRegionState(self._logger)",
+     "desc": "the plugin starts with a print flagged active", "functions": [P + "initialize"]},
     {"module": "__init__", "old": "if (gcode and self.isActivePrintJob):", "new": "if (gcode):",
      "desc": "gcode hook ignores the active-job guard", "functions": [P + "handleGcodeQueuing"]},
     {"module": "__init__", "old": "            self._activePrintJob = False\n", "new": "            pass\n",
